@@ -97,7 +97,7 @@ def main():
     if m:
         execs = sum(int(x) for x in m)
     else:
-        m = re.findall(r"^#(\d+)\s", out, re.M)
+        m = re.findall(r"^#(\d+)[:\s]", out, re.M)
         execs = max([int(x) for x in m] or [0])
     corp = len(os.listdir(corpus))
     cov = re.findall(r"cov: (\d+) ft: (\d+)", out)
